@@ -114,6 +114,7 @@ Lemma reader_step_wg s b s' fx :
 Proof.
   intros Hc Hb (Hx & Hw) H. unfold reader_step in H.
   destruct (rd s) eqn:Erd; try discriminate.
+  - destruct (estab s); [|discriminate]. cbn [fix_acc fixed] in H. inversion H; subst; split; cbn; auto.
   - destruct (goon (st s)); inversion H; subst; split; cbn; auto.
   - destruct (nth_error (calls s) i) as [c|]; [destruct (c_tab c)|]; inversion H; subst; split; cbn; auto.
   - destruct (nth_error (calls s) i) as [c|] eqn:En; [|discriminate].
@@ -283,7 +284,7 @@ Proof.
       (* refused: the status is neither ok nor active-closing *)
       intros Hk Hcl. right. right. rewrite Hk in Ead.
       destruct (st s) eqn:Est; cbn in Ead; try discriminate; auto; exfalso.
-      * destruct Hsi as (_ & _ & _ & _ & (_ & _ & He3)). specialize (He3 Est).
+      * destruct Hsi as (_ & _ & _ & _ & (_ & _ & He3 & _)). specialize (He3 Est).
         pose proof (Forall_nth _ _ _ _ (G3 He3) En). congruence.
       * assert (P : past_ctx_wait s) by (right; auto).
         pose proof (Forall_nth _ _ _ _ (G1 P) En Hcl). congruence.
@@ -358,12 +359,13 @@ Qed.
 
 Lemma reader_pre_shape s b s' fx :
   reader_step fixed s b = Some (s', fx) ->
-  match rd s with R0 | RLook _ _ | RLock _ _ | R3 _ | R4 _ => True | _ => False end ->
+  match rd s with RNone | R0 | RLook _ _ | RLock _ _ | R3 _ | R4 _ => True | _ => False end ->
   sock s' = sock s /\
   (hctxs s' = hctxs s \/
    exists k p, hctxs s' = hctxs s ++ [mkHctx k p WrNone Preparing (negb (status_eqb (st s) Ok)) false] /\ (p = K0 \/ p = K2)).
 Proof.
   unfold reader_step. destruct (rd s) eqn:Erd; try tauto; intros H _.
+  - destruct (estab s); [|discriminate]. cbn [fix_acc fixed] in H. inversion H; subst; cbn; auto.
   - destruct (goon (st s)); inversion H; subst; cbn; auto.
   - destruct (nth_error (calls s) i) as [c|]; [destruct (c_tab c)|]; inversion H; subst; cbn; auto.
   - destruct (nth_error (calls s) i) as [c|]; [|discriminate].
@@ -387,7 +389,7 @@ Proof.
   pose proof (stat_inv_step s (EReader b) s' fx Hsi H) as Hsi'.
   destruct (rd s) eqn:Erd; try (unfold reader_step in H; rewrite Erd in H; discriminate).
   (* read loop proper *)
-  all: try (destruct (reader_step_pre _ _ _ _ _ H) as ((E1 & _ & _ & E4 & E5 & _) & _ & Hn); [rewrite Erd; exact I|];
+  all: try (destruct (reader_step_pre _ _ _ _ H) as ((E1 & _ & _ & E4 & E5 & _) & _ & Hn); [rewrite Erd; exact I|];
             destruct (reader_pre_shape _ _ _ _ H) as (Es & [Eh|(k & p & Eh & Hp)]); [rewrite Erd; exact I| |];
             destruct G as (G1 & G2 & G3 & G4 & G5); unfold g_inv, past_ctx_wait; rewrite E1, E4, E5, Es, Eh;
             [ repeat split; auto; try tauto; try (intros X; exfalso; exact (Hn X)); fail
@@ -512,7 +514,7 @@ Lemma entered_handler_admitted s j h :
   reach_sess s -> nth_error (hctxs s) j = Some h -> k_kind h = KCall -> k_cl h = false ->
   k_pc h = K2 -> passive (st s) = false -> admits (st s) true = true.
 Proof.
-  intros H Hn Hk Hc Hp Hps. pose proof (reach_sinv s H) as ((_ & _ & _ & _ & (_ & _ & He3)) & _).
+  intros H Hn Hk Hc Hp Hps. pose proof (reach_sinv s H) as ((_ & _ & _ & _ & (_ & _ & He3 & _)) & _).
   destruct (reach_c8 s H) as (_ & _ & (G1 & _ & G3 & G4 & _)).
   destruct (st s) eqn:Est; cbn in *; auto; try discriminate; exfalso.
   - pose proof (Forall_nth _ _ _ _ (G3 (He3 eq_refl)) Hn). congruence.
